@@ -136,7 +136,11 @@ func build(bin string) string {
 	if err := os.Rename(tmpOut, outPath); err != nil {
 		fatal2("%v", err)
 	}
-	cleanupBins = append(cleanupBins, outPath)
+	if os.Getenv("DSIM_KEEP_BIN") == "" {
+		cleanupBins = append(cleanupBins, outPath)
+	} else {
+		fmt.Fprintf(os.Stderr, "dsim: keeping %s\n", outPath)
+	}
 	// drop copies left behind by invocations that were killed
 	if ents, err := os.ReadDir(filepath.Dir(outPath)); err == nil {
 		for _, e := range ents {
